@@ -102,6 +102,10 @@ def cases(rng, tier):
         fr = "-" if rng.random() < 0.6 else ",".join(map(str, sorted(rng.sample(range(len(s)), 2))))
         yield Case(["wlrun %s %d %s %s %d %s %s %d 400 %s @wrapper" % (s, nb, lo, hi, rng.choice([5, 20, 40]), rng.choice(["0", "1/4", "1/2", "3/4"]),
                                                                     rng.choice(["501/1000", "251/1000", "1001/1000"]), rng.randint(0, 10 ** 6), fr)], {"kind": "wrapper-route"})
+    # convergence thresholds that f reaches EXACTLY (e^(1/2), e^(1/4), e^(1/8)): the run stops when f is AT MOST the threshold
+    for i in range(6 if tier == "quick" else 30):
+        s = rng.choice(["EKEKEKRDQGSA", "EKEKGGEKRDGG", "KEKEGGDRKE"])
+        yield Case(["wlrun %s %d 0 1 %d 1/4 %s %d 900 -" % (s, rng.choice([2, 3]), rng.choice([10, 30]), ["1/2", "1/4", "1/8"][i % 3], rng.randint(0, 10 ** 6))], {"kind": "threshold-equal-to-a-value-of-f"})
     # the SECOND run() on one machine obeys the same rules from the same initial state
     for i in range(3 if tier == "quick" else 12):
         s = rng.choice(["EKEKEKRDQGSA", "EKEKGGEKRDGG", "KEKEGGDRKE"])
@@ -177,7 +181,7 @@ def judge(case, reals, gens, specs):
         lnf = 2.0 ** (-lnf_exp)
         if abs(st["f"] - math.exp(lnf)) > 1e-9:
             bad("step %d: f=%r but sqrt schedule gives %r" % (k, st["f"], math.exp(lnf)))
-        if st["f"] <= cfg["convergence"] * (1 - 1e-12):
+        if st["f"] <= cfg["convergence"]:          # (both are the machine's own doubles: the loop condition is f > convergence)
             bad("step %d was taken although f=%r is already at most the convergence threshold %r" % (k, st["f"], cfg["convergence"]))
         if sorted(st["nseq"]) != srt:
             bad("step %d: proposal %s is not a rearrangement of the input" % (k, st["nseq"]))
@@ -254,9 +258,12 @@ def judge(case, reals, gens, specs):
             bad("proposal %d (%s) has no step in the run's bookkeeping: %d proposals made, %d steps recorded" % (k_, props_[k_] if k_ < len(props_) else "?", len(props_), len(got)))
     # stop rule
     capped = len(trace) >= int(tk[9])
-    still = math.exp(2.0 ** (-lnf_exp)) > cfg["convergence"]
+    f_last = math.exp(1.0)
+    for st in trace:
+        f_last = st["f_after"] if (st.get("flatcheck") and "f_after" in st and st.get("niter_after", st.get("niter")) != st.get("niter")) else st["f"]
+    still = f_last > cfg["convergence"]
     if not capped and still:
-        bad("the loop stopped although f=%r > convergence=%r" % (math.exp(2.0 ** (-lnf_exp)), cfg["convergence"]))
+        bad("the loop stopped although f=%r > convergence=%r" % (f_last, cfg["convergence"]))
     # outputs
     ret = d["ret"]
     if any(abs(a - b) > 1e-12 for a, b in zip(ret[0], bincts)) or any(abs(a - b) > 1e-9 for a, b in zip(ret[1], g)):
